@@ -41,12 +41,13 @@ static const int NCELL = 2 * 9 * 8 * 2 * 2;
 
 static void sub_solve() {
     World &w = world(); mpi::communicator comm(w.comm);
-    long N = vf::opt_int("solves", vf::tier(12, 192)); long offset = (long)(w.size * 67 + vf::ctx().seed * 29);
+    long N = vf::opt_int("solves", vf::tier(48, 192)); long offset = (long)(w.size * 67 + vf::ctx().seed * 29);
     for (long idx = 0; idx < N; ++idx) {
         if (!vf::selected("solve", idx)) continue;
         uint64_t cs = vf::case_seed("solve", idx * 16 + w.size); Rng r(cs); vfm::seed_delays(cs, w.rank);
         long cell = (offset + idx * 115) % NCELL;
         std::string co = COARS[cell % 2], rl = RELAX[(cell / 2) % 9], sv = SOLV[(cell / 18) % 8], ds = DIRECT[(cell / 144) % 2]; bool repart = (cell / 288) % 2;
+        { std::string fr = vf::opt("force_relax"), fs = vf::opt("force_solver"); if (!fr.empty()) rl = fr; if (!fs.empty()) sv = fs; }      // targeted runs (development / replay of a cell family)
         Problem p = make_problem(r, 300, (int)vf::tier(900, 1500));
         Part rp = vfm::random_part(p.A.n, w.size, r);
         bool budget = r.coin(0.2), left = !budget && (sv == "bicgstab" || sv == "bicgstabl" || sv == "gmres" || sv == "lgmres") && r.coin(0.25), rebuildable = r.coin();
